@@ -135,6 +135,12 @@ impl ProcedureCache {
         Ok(*mast_root)
     }
 
+    /// Removes the specified alias from the cache. This is used to roll back the aliases of a
+    /// module whose compilation did not complete.
+    pub fn remove_proc_alias(&mut self, alias_proc_id: &ProcedureId) {
+        self.proc_aliases.remove(alias_proc_id);
+    }
+
     // TEST HELPERS
     // --------------------------------------------------------------------------------------------
 
